@@ -2,6 +2,7 @@ package rules
 
 import (
 	"go/token"
+	"go/types"
 	"sort"
 	"strings"
 
@@ -19,19 +20,19 @@ import (
 // c06KeywordFields: AST string fields whose value is a keyword or operator word put there by the
 // parser (each confirmed by reading the parser's stores, 2026-09-26).
 var c06KeywordFields = map[string]string{
-	"SetOperation.Operator":         "UNION / EXCEPT / INTERSECT",
-	"AlterTableAction.Type":         "ADD COLUMN / DROP COLUMN / … built from keyword constants",
-	"IndexColumn.Direction":         "ASC / DESC",
+	"SetOperation.Operator":          "UNION / EXCEPT / INTERSECT",
+	"AlterTableAction.Type":          "ADD COLUMN / DROP COLUMN / … built from keyword constants",
+	"IndexColumn.Direction":          "ASC / DESC",
 	"CreateViewStatement.WithOption": "WITH CHECK OPTION variants",
-	"DropStatement.ObjectType":      "TABLE / VIEW / INDEX / …",
-	"DropStatement.CascadeType":     "CASCADE / RESTRICT",
-	"TruncateStatement.CascadeType": "CASCADE / RESTRICT",
-	"MergeWhenClause.Type":          "MATCHED / NOT_MATCHED / …",
-	"JoinClause.Type":               "INNER / LEFT / RIGHT / FULL / CROSS / NATURAL",
-	"WindowFrame.Type":              "ROWS / RANGE / GROUPS",
-	"TableConstraint.Type":          "PRIMARY KEY / UNIQUE / FOREIGN KEY / CHECK",
-	"ReferenceDefinition.OnDelete":  "CASCADE / SET NULL / …",
-	"ReferenceDefinition.OnUpdate":  "CASCADE / SET NULL / …",
+	"DropStatement.ObjectType":       "TABLE / VIEW / INDEX / …",
+	"DropStatement.CascadeType":      "CASCADE / RESTRICT",
+	"TruncateStatement.CascadeType":  "CASCADE / RESTRICT",
+	"MergeWhenClause.Type":           "MATCHED / NOT_MATCHED / …",
+	"JoinClause.Type":                "INNER / LEFT / RIGHT / FULL / CROSS / NATURAL",
+	"WindowFrame.Type":               "ROWS / RANGE / GROUPS",
+	"TableConstraint.Type":           "PRIMARY KEY / UNIQUE / FOREIGN KEY / CHECK",
+	"ReferenceDefinition.OnDelete":   "CASCADE / SET NULL / …",
+	"ReferenceDefinition.OnUpdate":   "CASCADE / SET NULL / …",
 }
 
 type kwClass struct {
@@ -375,4 +376,187 @@ func runC06Kw(c *Ctx) {
 	}
 	sort.Strings(tbl)
 	r.Extra("kw_keyword_fields", tbl)
+}
+
+// ---- option-independence ---------------------------------------------------------------------
+
+// optionDerived: v depends on a field of FormatOptions (layout options).
+func optionDerived(v ssa.Value, depth int, seen map[ssa.Value]bool) bool {
+	if depth > 8 || seen[v] {
+		return false
+	}
+	seen[v] = true
+	isOpt := func(t types.Type) bool {
+		n := core.NamedOf(t)
+		return n != nil && n.Obj().Name() == "FormatOptions"
+	}
+	switch x := v.(type) {
+	case *ssa.Field:
+		if isOpt(x.X.Type()) {
+			return true
+		}
+		return optionDerived(x.X, depth+1, seen)
+	case *ssa.FieldAddr:
+		if isOpt(x.X.Type()) {
+			return true
+		}
+		return optionDerived(x.X, depth+1, seen)
+	case *ssa.UnOp:
+		return optionDerived(x.X, depth+1, seen)
+	case *ssa.BinOp:
+		return optionDerived(x.X, depth+1, seen) || optionDerived(x.Y, depth+1, seen)
+	case *ssa.Phi:
+		for _, e := range x.Edges {
+			if optionDerived(e, depth+1, seen) {
+				return true
+			}
+		}
+		// a phi that merges the outcome of `a && b`: look at the conditions of the merging branches
+		for _, pred := range x.Block().Preds {
+			if iff, ok := pred.Instrs[len(pred.Instrs)-1].(*ssa.If); ok && optionDerived(iff.Cond, depth+1, seen) {
+				return true
+			}
+		}
+	case *ssa.Parameter:
+		return isOpt(x.Type())
+	}
+	return false
+}
+
+// contentRead: the field address is used for more than presence tests (nil / len / "" comparisons).
+func contentRead(fa *ssa.FieldAddr) bool {
+	for _, ref := range core.Referrers(fa) {
+		ld, ok := ref.(*ssa.UnOp)
+		if !ok {
+			if _, isDbg := ref.(*ssa.DebugRef); isDbg {
+				continue
+			}
+			return true // address passed on / indexed / stored: content use
+		}
+		for _, r2 := range core.Referrers(ld) {
+			switch x := r2.(type) {
+			case *ssa.DebugRef:
+			case *ssa.BinOp:
+				if x.Op == token.EQL || x.Op == token.NEQ {
+					continue
+				}
+				return true
+			case *ssa.Call:
+				if core.IsBuiltinCall(&x.Call, "len") {
+					only := true
+					for _, r3 := range core.Referrers(x) {
+						if bo, ok := r3.(*ssa.BinOp); !ok || !(bo.Op == token.EQL || bo.Op == token.NEQ || bo.Op == token.GTR || bo.Op == token.LSS || bo.Op == token.GEQ || bo.Op == token.LEQ) {
+							only = false
+						}
+					}
+					if only {
+						continue
+					}
+				}
+				return true
+			case *ssa.If:
+			default:
+				return true
+			}
+		}
+	}
+	return false
+}
+
+// c06OptionIndependence: which node fields a Format method prints must not depend on layout options.
+func c06OptionIndependence(c *Ctx, p *core.Prog, astPath string) {
+	r := c.R
+	r.Rule("option-independence", "in the Format methods of pkg/sql/ast a layout option (a FormatOptions field) never decides whether a node field is read: for every branch on an option-derived condition, the node fields read on one side are read on the other side too (options change keyword case, indentation and line breaks, not the content)")
+	n := 0
+	for _, fn := range p.SrcFuncs("pkg/sql/ast") {
+		if fn.Parent() != nil || len(fn.Blocks) == 0 {
+			continue
+		}
+		// functions that take or hold FormatOptions
+		uses := false
+		for _, par := range fn.Params {
+			if nn := core.NamedOf(par.Type()); nn != nil && (nn.Obj().Name() == "FormatOptions" || nn.Obj().Name() == "formatter") {
+				uses = true
+			}
+		}
+		if !uses {
+			continue
+		}
+		seq := 0
+		for _, b := range fn.Blocks {
+			iff, ok := b.Instrs[len(b.Instrs)-1].(*ssa.If)
+			if !ok || !optionDerived(iff.Cond, 0, map[ssa.Value]bool{}) {
+				continue
+			}
+			// node fields read in the blocks dominated by each side
+			side := func(k int) map[string]bool {
+				out := map[string]bool{}
+				start := b.Succs[k]
+				if len(start.Preds) != 1 {
+					return out // a join: nothing is exclusive to this side
+				}
+				for _, bb := range fn.Blocks {
+					if !start.Dominates(bb) {
+						continue
+					}
+					for _, in := range bb.Instrs {
+						fa, ok := in.(*ssa.FieldAddr)
+						if !ok || !contentRead(fa) {
+							continue
+						}
+						nn := core.NamedOf(fa.X.Type())
+						if nn == nil || nn.Obj().Pkg() == nil || nn.Obj().Pkg().Path() != astPath || nn.Obj().Name() == "FormatOptions" || nn.Obj().Name() == "formatter" {
+							continue
+						}
+						out[nn.Obj().Name()+"."+core.FieldName(fa.X.Type(), fa.Field)] = true
+					}
+				}
+				return out
+			}
+			t, f := side(0), side(1)
+			var only []string
+			for k := range t {
+				if !f[k] {
+					only = append(only, k)
+				}
+			}
+			for k := range f {
+				if !t[k] {
+					only = append(only, k)
+				}
+			}
+			n++
+			if len(only) == 0 {
+				continue
+			}
+			// a field read on one side only is acceptable if it is also read outside both sides (unconditionally elsewhere)
+			elsewhere := map[string]bool{}
+			for _, bb := range fn.Blocks {
+				if b.Succs[0].Dominates(bb) && len(b.Succs[0].Preds) == 1 || b.Succs[1].Dominates(bb) && len(b.Succs[1].Preds) == 1 {
+					continue
+				}
+				for _, in := range bb.Instrs {
+					if fa, ok := in.(*ssa.FieldAddr); ok && contentRead(fa) {
+						if nn := core.NamedOf(fa.X.Type()); nn != nil {
+							elsewhere[nn.Obj().Name()+"."+core.FieldName(fa.X.Type(), fa.Field)] = true
+						}
+					}
+				}
+			}
+			var bad []string
+			for _, k := range only {
+				if !elsewhere[k] {
+					bad = append(bad, k)
+				}
+			}
+			sort.Strings(bad)
+			if len(bad) == 0 {
+				continue
+			}
+			seq++
+			r.Violate("option-independence", core.FnName(fn)+sprintf("|option-branch#%d", seq), p.Pos(iff.Cond.Pos()), "whether "+strings.Join(bad, ", ")+" is printed depends on a formatting option: under one option value the field is never read, so the clause is dropped from the output and the re-parsed tree differs")
+		}
+	}
+	r.OK("option-independence", "scan", "-", sprintf("%d option-dependent branches in Format code examined", n))
+	r.Floor("option-independence", n, 10, "option-dependent branches")
 }
